@@ -62,6 +62,8 @@ BUILTIN_EXCEPTIONS = [KeyError, ValueError, LookupError, AttributeError, TypeErr
 
 
 class World(object):
+    UNPRINTABLE_RATE = 0.0       # share of input values that only their owner can print (set by unprintable_values())
+
     def __init__(self, seed, poison=False, raise_rate=0.1, raw_rate=0.3, sharing=False, force_raise=None, hostile_rate=0.08):
         self.hostile_rate = hostile_rate    # share of values whose == is not a plain bool
         self.force_raise = force_raise      # every input raises this exception type (for exhaustive tables)
@@ -93,6 +95,9 @@ class World(object):
             return ('raise', rng.choice(BUILTIN_EXCEPTIONS))
         g = Gen(rng, multi_sets=False)
         payload = g.value(2, sharing=self.sharing)
+        if World.UNPRINTABLE_RATE and random.Random(h ^ 0x5bd1e995).random() < World.UNPRINTABLE_RATE:
+            from vlib.values import Unprintable
+            return ('value', Unprintable(tok='%s#%06x' % (name, h & 0xffffff), rows=[1, 2]))     # only its owner can print it
         if rng.random() < self.hostile_rate:
             from vlib.values import HostileEq
             return ('value', HostileEq(tok='%s#%06x' % (name, h & 0xffffff), n=rng.randrange(5)))     # array-like value: == is not a bool
@@ -101,6 +106,19 @@ class World(object):
                 payload = rng.choice([0, '', [], {}, False, None, (), 0.0, b'', set()])
             return ('value', payload)
         return ('value', {'tok': '%s#%06x' % (name, h & 0xffffff), 'v': payload})
+
+
+import contextlib
+
+
+@contextlib.contextmanager
+def unprintable_values(rate=0.3):
+    old = World.UNPRINTABLE_RATE
+    World.UNPRINTABLE_RATE = rate
+    try:
+        yield
+    finally:
+        World.UNPRINTABLE_RATE = old
 
 
 # ------------------------------------------------------------------------------------------------------
@@ -715,6 +733,9 @@ class Built(object):
                 ns['execute'] = classmethod(rec.class_operation(metadata_extractor=ext)(execute))
             else:
                 ns['execute'] = rec.operation(metadata_extractor=ext)(execute)
+        if prog.get('unprintable_self'):
+            from vlib.values import owner_only_repr
+            ns['__repr__'] = ns['__str__'] = owner_only_repr       # the service object itself cannot be printed by the framework
         bases = (object,)
         if rec is not None and prog.get('base_params') is not None:
             # the operation class extends a base class that has recording parameters of its own (registered first, as imports do)
